@@ -19,11 +19,11 @@ from vlib import common as C
 SAN = {"ASAN_OPTIONS": "detect_leaks=1:abort_on_error=0:exitcode=99:allocator_may_return_null=1",
        "UBSAN_OPTIONS": "print_stacktrace=1:halt_on_error=1:exitcode=98"}
 
-# clauses of the property text itself (C++ oracle `why=`); anything else is relation-only
+# step-level clauses of the property text itself (C++ oracle `why=`; ill-formedness is reported through
+# wf=0); any other reason is a relation-only disagreement
 PROPERTY_WHY = re.compile(
-    r"symbol|category|arity|arg-range|arg-category|arg-type|last-row|best|rows|cols|walk-leaves-genome|"
-    r"offspring-size|offspring-age|gene-from-neither-parent|p=0-changed-something|function-in-patch|"
-    r"function-in-destroyed-row|cse-redirect-not-later|cse-redirect-to-different-gene|cse-symbol|cse-parameter")
+    r"^(walk-leaves-genome|offspring-size|offspring-age|gene-from-neither-parent|p=0-changed-something|"
+    r"cse-redirect-not-later)$")
 
 FLAVOURS = {0: "one_point", 1: "two_points", 2: "tree", 3: "uniform"}
 
@@ -84,7 +84,7 @@ def run_shard(exe, args, stdin=None):
         # died: `cur` is the (possibly partial) request of the call that was running
         deaths.append({"request": cur, "rc": rc, "stderr": se[-2500:], "scenario": scen})
         restarts += 1
-        if args[0] != "run" or scen is None or restarts > 20:
+        if args[0] != "run" or scen is None or restarts > 6:
             break
         first, last = scen + 1, int(args[3])
         if first >= last:
@@ -144,7 +144,7 @@ def run(chk, replay=None):
                 chk.count("big:" + ("accepted" if d["accepted"] == "1" else "rejected"))
                 if d["accepted"] == "1" and d["wf"] != "1":
                     chk.violation("code_length=%s is accepted by environment::is_valid but i_mep(problem) builds an "
-                                  "ill-formed individual (%s): argument indices do not fit gene::packed_index_t"
+                                  "ill-formed individual (C++ oracle: %s)"
                                   % (d["len"], d["why"]), {"probe": "big", "line": ln},
                                   tags={"op": "random", "kind": "code-length-overflow"})
         if rc != 0:
@@ -154,15 +154,20 @@ def run(chk, replay=None):
     # ---- the Lean side ------------------------------------------------------
     suspects = []          # relation-only disagreements (searched further below)
     nlean_fail = 0
-    for (label, args, _), (recs, deaths) in zip(jobs, results):
+    for (label, args, jstdin), (recs, deaths) in zip(jobs, results):
         for d in deaths:
             req = d["request"]
             kind = san_kind(d["stderr"])
             t = (req or "?").split()
-            tags = {"op": t[0] if t else "?", "kind": "sanitizer-abort", "san": kind}
+            opname = t[0] if t else "?"
+            if req is None:      # e.g. LeakSanitizer at exit: attribute through the allocation stack
+                m = re.search(r"vita::i_mep::(cse|mutation|replace|destroy_block|get_block)|vita::(crossover)", d["stderr"])
+                if m:
+                    opname = m.group(1) or m.group(2)
+            tags = {"op": opname, "kind": "sanitizer-abort", "san": kind}
             chk.count("death:" + tags["op"])
-            chk.violation("the harness died (rc=%s, %s) inside a real operator call: %s"
-                          % (d["rc"], kind, (req or "?")[:200]),
+            chk.violation("the harness died (rc=%s, %s) in a real operator call (%s): %s"
+                          % (d["rc"], kind, opname, (req or "(reported at exit)")[:200]),
                           {"request": req, "stderr": d["stderr"], "scenario": d["scenario"],
                            "seed": chk.seed, "args": args}, tags=tags)
         if not recs:
@@ -182,6 +187,8 @@ def run(chk, replay=None):
                                  "9-24" if rows <= 24 else "25-64"))
             if op in ("crossover",):
                 chk.count("flavour:" + FLAVOURS.get(info.get("flavour"), "?") + (":forced" if info.get("forced") else ":natural"))
+                if info.get("ages_differ"):
+                    chk.count("crossover:parents-of-different-age")
             if op == "cse":
                 chk.count("cse:redirects>0" if info.get("redirects") else "cse:no-redirect")
             if op in ("mutation", "tmutation"):
@@ -203,7 +210,7 @@ def run(chk, replay=None):
             tags = {"op": op, "set": info.get("set"), "rows": rows, "why": o["why"],
                     "flavour": FLAVOURS.get(info.get("flavour")), "lean": ans}
             rep = {"request_line": lline, "oracle": o, "lean": ans, "seed": chk.seed, "args": args,
-                   "scenario": o["scenario"], "op_index": o["opn"]}
+                   "stdin": jstdin, "scenario": o["scenario"], "op_index": o["opn"]}
             if o["expect"] == "bad":
                 if cxx_ok or lean_ok:
                     broken.append("a malformed individual (replace with an incompatible gene) is accepted: "
@@ -237,10 +244,14 @@ def run(chk, replay=None):
             t = rep["request_line"].split()
             op = t[0]
             # the request = the line minus the post individual(s); re-derive by replaying the scenario
-            if exe_dbg is not None and rep["args"][0] == "run":
-                recs, deaths = run_shard(exe_dbg, ["run", rep["args"][1], str(rep["scenario"]), str(rep["scenario"] + 1)])
+            if exe_dbg is not None:
+                if rep["args"][0] == "run":
+                    recs, deaths = run_shard(exe_dbg, ["run", rep["args"][1], str(rep["scenario"]), str(rep["scenario"] + 1)])
+                else:
+                    recs, deaths = run_shard(exe_dbg, rep["args"], rep["stdin"])
                 for d in deaths:
-                    if "Assertion" in d["stderr"]:
+                    same_call = d["request"] and rep["request_line"].startswith(d["request"].strip())
+                    if "Assertion" in d["stderr"] and same_call:
                         found = True
                         chk.violation("%s violates a precondition inside vita (assertion-enabled build): %s; in the "
                                       "release build the result is not an admissible outcome of the operator "
